@@ -128,6 +128,7 @@ def check(ctx):
         ctx.sample({"proto": j["proto"], "workers": j["workers"], "classes": okr["class"], "decoded_count": okr["decoded_count"],
                     "templates": len(j["templates"]), "events_tail": okr["events"][-6:]})
     # ---- end to end
+    backlog_stage(ctx, thorough)
     end_to_end(ctx, thorough)
 
 
@@ -185,6 +186,63 @@ def classify_line(line):
     if line.startswith(b'{"Version":5'):
         return "sflow"
     return "?"
+
+
+def backlog_stage(ctx, thorough):
+    """the real run() of each protocol with its workers stalled until the datagram queue is full (1000 queued, one per
+    worker, one the receive loop cannot queue, a few in the socket), then released - no shutdown in between: every
+    datagram is counted once as received, at most once as decoded, and gives rise to at most one message"""
+    import socket
+    drv = ctx.go_build_test("vflow", ["vflow/shutdown_verif_test.go"])
+    d = ctx.subdir("c13backlog")
+    for proto in c12.PROTOS:
+        rng = ctx.rng
+        setup, data = [], []
+        if proto in ("ipfix", "netflow9"):
+            setup, data = gen_flow.session(rng, "ipfix" if proto == "ipfix" else "v9", ntpl=3, ndata=1030)
+        elif proto == "netflow5":
+            seen = set()
+            while len(data) < 1030:
+                m = c08.rand_dgram(rng)
+                if tuple(m) not in seen and len(m) <= 1464:
+                    seen.add(tuple(m))
+                    data.append(m)
+        else:
+            g = gen_sflow.Gen(rng)
+            seen = set()
+            while len(data) < 1030:
+                m, _ = g.datagram(budget=600)
+                if tuple(m) not in seen:
+                    seen.add(tuple(m))
+                    data.append(m)
+        dg = os.path.join(d, "dgrams-%s.json" % proto)
+        with open(dg, "w") as fh:
+            json.dump({"setup": setup, "data": data}, fh)
+        out = os.path.join(d, "bl-%s.json" % proto)
+        rc, log, to = ctx.go_run(drv, "TestVerifShutdownFullQueue", timeout=180,
+                                 env={"VERIF_OUT": out, "VERIF_PROTO": proto, "VERIF_PORT": e2e.free_port(socket.SOCK_DGRAM),
+                                      "VERIF_MODE": "backlog", "VERIF_DGRAMS": dg, "VERIF_HOLD_MS": 0})
+        ctx.count([proto, "queue-full-backlog", ctx.seed])
+        if rc != 0 or not os.path.exists(out):
+            why = next((l for l in log.split("\n") if l.startswith(("panic:", "fatal error:"))), None)
+            if why:
+                ctx.violation("%s: the collector died while its workers caught up with a full datagram queue: %s" % (proto, why), {"proto": proto}, key=proto + ":backlog-died")
+                continue
+            raise vlib.Infra("backlog driver failed: " + log[-1500:])
+        r = json.load(open(out))
+        if not r["queue_full"]:
+            raise vlib.Infra("backlog driver could not fill the queue: %s" % r)
+        case = {"proto": proto, "sent": r["sent"], "result": r}
+        ctx.extra.setdefault("backlog_runs", []).append({k: r.get(k) for k in ("proto", "sent", "udp_after", "dec_after", "published", "max_same_payload", "drained")})
+        if not r.get("drained"):
+            ctx.violation("%s: after the stalled workers were released the counters / the queue never came to rest (received %s, decoded %s, "
+                          "published %s after 30 s; %d datagrams were sent)" % (proto, r["udp_after"], r["dec_after"], r["published"], r["sent"]),
+                          case, key=proto + ":backlog-runaway")
+        elif r["udp_after"] > r["sent"] or r["dec_after"] > r["udp_after"] or r["published"] > r["dec_after"] or r["max_same_payload"] > 3:
+            ctx.violation("%s: full queue, then the workers caught up: %d datagrams sent, counted %d times as received, %d times as decoded, "
+                          "%d messages published (the same payload up to %d times)"
+                          % (proto, r["sent"], r["udp_after"], r["dec_after"], r["published"], r["max_same_payload"]), case, key=proto + ":backlog-counts")
+        ctx.traces_validated += 1
 
 
 def end_to_end(ctx, thorough):
